@@ -938,9 +938,9 @@ VG1_VALUE_GUARDS = [
      'a None node has no children'),
     ('optree.accessor', 'AutoEntry.__new__', 'kind != PyTreeKind.CUSTOM', True,
      'automatic dispatch is defined for custom nodes only; built-in kinds have fixed entry classes'),
-    ('optree.ops', 'tree_flatten_one_level', 'handler is None', True,
+    ('optree.ops', 'tree_flatten_one_level', '?h is None', True,
      'a type without a registry entry is a leaf: it has no one-level flattening'),
-    ('optree.registry', '_none_unflatten', 'next(iter(children), sentinel) is not sentinel', True,
+    ('optree.registry', '_none_unflatten', 'next(iter(?c), ?s) is not ?s', True,
      'a None node has no children: any child handed to its unflatten function is an error'),
 ]
 
@@ -1023,15 +1023,16 @@ def vg1(ctx):
             if isinstance(g, ast.If) and g.body and isinstance(g.body[-1], ast.Raise):
                 for cn in cfg.nodes:
                     if cn.kind == 'cond' and cn.ast is not None and any(x is cn.ast for x in ast.walk(g.test)):
-                        s_ = src(cn.ast)
-                        flipped = None
-                        # the same atom written with the opposite operator tests the opposite outcome
-                        for a_, b_ in ((' == ', ' != '), (' is not ', ' is ')):
-                            if atom.replace(a_, b_) == s_ or atom.replace(b_, a_) == s_:
-                                flipped = s_ != atom
-                        if s_ == atom:
+                        # (local names are metavariables: `?h is None`)
+                        flipped_atom = None
+                        for a_, b_ in ((' == ', ' != '), (' != ', ' == '), (' is not ', ' is '), (' is ', ' is not ')):
+                            if a_ in atom:
+                                flipped_atom = atom.replace(a_, b_, 1)
+                                break
+                        if pmatch(cn.ast, atom) is not None:
                             hits.append((g, cn, rej))
-                        elif flipped:
+                        elif flipped_atom is not None and pmatch(cn.ast, flipped_atom) is not None:
+                            # the same atom written with the opposite operator tests the opposite outcome
                             hits.append((g, cn, not rej))
         ctx.require(hits, '%s.%s: the guard on `%s` was not found' % (mname, qual, atom))
         for g, cn, r_ in hits[:1]:
